@@ -191,6 +191,42 @@ def calibration_trees(chk, exe, rng, count):
                     'global' if ci < 0 else "calibration's", want[:300], o2[1][:300]), lines + ['# then, in a fresh process:'] + lines2)
                 return
             chk.count('cal_tree_roundtrip_ok')
+    # several calibrations in one file, each with a tree of its own, with none, or with one that was set and deleted again: every tree
+    # comes back as the tree of its own calibration (and a calibration without properties comes back without)
+    sc = calsim.Scenario(rng, 'E12', 1, 1, 1).begin()
+    sc.solt()
+    for nm in (b'c0', b'c1', b'c2'):
+        sc.solve().add_calibration(nm)
+    setup = sc.lines
+    for rep in range(max(6, count // 2)):
+        sets, roots = [], (-1, 0, 1, 2)
+        for ci in roots:
+            how = rng.choice(['tree', 'tree', 'none', 'none', 'deleted']) if rep else ('tree' if ci in (-1, 0, 2) else 'none')
+            if how != 'none':
+                t = rng.choice(trees)
+                sets += ['cal property 0 %d %s %s' % (ci, l.split()[2], l.split()[3]) for l in build_lines(0, t)]
+            if how == 'deleted':
+                sets.append('cal property 0 %d delete %s' % (ci, hx(b'.')))
+        dig = ['cal property 0 %d digest %s' % (ci, hx(b'.')) for ci in roots]
+        lines = setup + sets + dig + ['cal savestr 0']
+        o1, rc, err = vlib.run_lines(exe, lines)
+        chk.evaluations += 1
+        if rc != 0 or len(o1) != len(lines) or not o1[-1].startswith('ok'):
+            chk.violation('cal-trees-save', 'building or saving property trees of three calibrations fails / crashes: %s %s' % ((o1 or ['?'])[-1][:80], err[-600:]), lines)
+            return
+        want = o1[-5:-1]
+        lines2 = ['cal loadstr 1 ' + o1[-1].split()[-1]] + [l.replace('cal property 0 ', 'cal property 1 ', 1) for l in dig] + ['cal free 1', 'cal live']
+        o2, rc, err = vlib.run_lines(exe, lines2)
+        if rc != 0 or len(o2) != len(lines2):
+            chk.violation('cal-trees-load', 'loading a saved file of three calibrations crashes: %s' % err[-800:], lines + lines2)
+            return
+        for ci, a, b in zip(roots, want, o2[1:5]):
+            if a != b:
+                chk.violation('cal-trees-roundtrip', 'the property tree of %s changes across vnacal_save / vnacal_load of a file with three calibrations\n  built : %s\n  loaded: %s' % (
+                    'the file' if ci < 0 else 'calibration %d' % ci, a[:300], b[:300]), lines + ['# then, in a fresh process:'] + lines2)
+                return
+        chk.count('cal_trees_three_ok')
+        chk.distinct.add(('three', tuple(want)))
 
 
 def failing_save_keeps_file(chk, exe):
